@@ -475,7 +475,15 @@ def run(ctx):
     # every piece of every engine's block function against the specification, as value graphs (cxsa/props/arx.py)
     from . import arx
     got = []
-    ctx.guard("block-eq", "engines", lambda: got.append(arx.check_engines(ctx, {"K0": P, "K6": P6} if P6 is not None else {"K0": P})))
-    want = 44 if P6 is not None else 28
-    ctx.check(got == [want], "floor", "block-eq", "%d engine pieces (3 engines x init / rounds / add_back / output / counter cases) compared with the specification" % want, "only %s engine pieces were compared with the specification (expected %d)" % (got, want), key="floor:block-eq")
+    progs_ = {"K0": P}
+    if P6 is not None:
+        progs_["K6"] = P6
+    for k_ in ("K3", "K5"):
+        try:
+            progs_[k_] = ctx.prog(k_)
+        except Exception:
+            pass
+    ctx.guard("block-eq", "engines", lambda: got.append(arx.check_engines(ctx, progs_)))
+    want = (44 if P6 is not None else 28) + 16 * len([k_ for k_ in ("K3", "K5") if k_ in progs_])
+    ctx.check(got == [want], "floor", "block-eq", "%d engine pieces (portable, SSE2 default / +sse4.1 / +avx2 builds, Salsa: init / rounds / add_back / output / counter cases) compared with the specification" % want, "only %s engine pieces were compared with the specification (expected %d)" % (got, want), key="floor:block-eq")
     ctx.not_decided += ["composition of the verified pieces into the keystream by the cipher contexts beyond the call-order / wiring rules (update: clone, rounds, add_back, output_bytes, increment)"]
